@@ -25,7 +25,7 @@ theorem auto_sound (c : AutoCfg) (parse : String → Outcome R) (o : List String
   autoLoop_ok c parse o [] f r h
 
 /-- … in particular the detected format is one of the candidates and naming it explicitly gives the same result -/
-theorem auto_sound' (c : AutoCfg) (parse : String → Outcome R) (o : List String) (f : String) (r : R)
+theorem auto_sound_explicit (c : AutoCfg) (parse : String → Outcome R) (o : List String) (f : String) (r : R)
     (h : auto c parse o = .ok f r) : f ∈ o ∧ parse f = .ok r := by
   obtain ⟨pre, post, rfl, _, hf⟩ := auto_sound c parse o f r h
   exact ⟨by simp, hf⟩
@@ -290,5 +290,28 @@ example : RejectOrAgree genAutoCfg exParse (fun a b => a = b) ["cif", "discus"] 
     rcases hf with rfl | rfl
     · left; exact ⟨"StructureFormatError", "not a CIF", rfl, by decide⟩
     · right; exact ⟨7, rfl, rfl⟩⟩
+
+/-- `written_text_detected_of_matrix` is not vacuous: toy writers (the text is the format's name) and parsers (accept
+exactly their own name) satisfy the matrix hypothesis on the registry under test, hence the full statement -/
+example : written_text_detected_statement genOrderCfg genRegistry genAutoCfg (fun g (_ : Unit) => g)
+    (fun f t => if f = t then Outcome.ok 0 else .err "StructureFormatError" "no") (fun _ _ => True) (fun _ => True)
+    (fun a b : Nat => a = b) :=
+  written_text_detected_of_matrix _ _ _ _ _ _ _ _ gen_names_nodup (by decide) (by
+    intro g _ s _ _
+    refine ⟨0, ⟨by simp, ?_⟩⟩
+    intro f _
+    by_cases h : f = g
+    · right; exact ⟨0, by simp [h], rfl⟩
+    · left; exact ⟨"StructureFormatError", "no", by simp [h], by decide⟩)
+
+/-- `auto_first`, `auto_foreign_escapes`, `auto_none_masks` applied to the example tables -/
+example : auto genAutoCfg exParse (["cif"] ++ "discus" :: ["pdb"]) = .ok "discus" 7 :=
+  auto_first genAutoCfg exParse ["cif"] ["pdb"] "discus" 7
+    (by intro g hg; simp at hg; subst hg; exact ⟨"StructureFormatError", "not a CIF", rfl, by decide⟩) rfl
+example : auto genAutoCfg exForeign (["cif"] ++ "discus" :: ["pdb"]) = .err "TypeError" "boom" :=
+  auto_foreign_escapes genAutoCfg exForeign ["cif"] ["pdb"] "discus" "TypeError" "boom"
+    (by intro g hg; simp at hg; subst hg; exact ⟨"StructureFormatError", "no", rfl, by decide⟩) rfl (by decide)
+example : auto genAutoCfg exNone ([] ++ "cif" :: ["rawxyz"]) = .err genAutoCfg.raised (genAutoCfg.failMsg []) :=
+  auto_none_masks genAutoCfg exNone [] ["rawxyz"] "cif" (by simp) rfl
 
 end DS.Props.C12
